@@ -5,6 +5,8 @@ type nat =
 | O
 | S of nat
 
+val option_map : ('a1 -> 'a2) -> 'a1 option -> 'a2 option
+
 type ('a, 'b) sum =
 | Inl of 'a
 | Inr of 'b
@@ -37,6 +39,8 @@ module Nat :
   val leb : nat -> nat -> bool
 
   val ltb : nat -> nat -> bool
+
+  val compare : nat -> nat -> comparison
  end
 
 val hd : 'a1 -> 'a1 list -> 'a1
@@ -54,6 +58,8 @@ val rev_append : 'a1 list -> 'a1 list -> 'a1 list
 val list_eq_dec : ('a1 -> 'a1 -> bool) -> 'a1 list -> 'a1 list -> bool
 
 val map : ('a1 -> 'a2) -> 'a1 list -> 'a2 list
+
+val flat_map : ('a1 -> 'a2 list) -> 'a1 list -> 'a2 list
 
 val fold_left : ('a1 -> 'a2 -> 'a1) -> 'a2 list -> 'a1 -> 'a1
 
@@ -116,7 +122,15 @@ module Coq_Pos :
 
   val sub_mask_carry : positive -> positive -> mask
 
+  val sub : positive -> positive -> positive
+
   val mul : positive -> positive -> positive
+
+  val iter : ('a1 -> 'a1) -> 'a1 -> positive -> 'a1
+
+  val pow : positive -> positive -> positive
+
+  val size_nat : positive -> nat
 
   val compare_cont : comparison -> positive -> positive -> comparison
 
@@ -124,9 +138,15 @@ module Coq_Pos :
 
   val eqb : positive -> positive -> bool
 
+  val ggcdn : nat -> positive -> positive -> positive * (positive * positive)
+
+  val ggcd : positive -> positive -> positive * (positive * positive)
+
   val iter_op : ('a1 -> 'a1 -> 'a1) -> positive -> 'a1 -> 'a1
 
   val to_nat : positive -> nat
+
+  val of_nat : nat -> positive
 
   val of_succ_nat : nat -> positive
  end
@@ -170,7 +190,13 @@ module Z :
 
   val mul : z -> z -> z
 
+  val pow_pos : z -> positive -> z
+
+  val pow : z -> z -> z
+
   val compare : z -> z -> comparison
+
+  val sgn : z -> z
 
   val leb : z -> z -> bool
 
@@ -178,9 +204,13 @@ module Z :
 
   val eqb : z -> z -> bool
 
+  val abs : z -> z
+
   val to_nat : z -> nat
 
   val of_nat : nat -> z
+
+  val to_pos : z -> positive
 
   val pos_div_eucl : positive -> z -> z * z
 
@@ -189,6 +219,8 @@ module Z :
   val div : z -> z -> z
 
   val modulo : z -> z -> z
+
+  val ggcd : z -> z -> z * (z * z)
  end
 
 val zero : char
@@ -317,6 +349,26 @@ type renderfn_id =
 val shared_fns : (operator * renderfn_id) list
 
 val postgres_own_fns : (operator * renderfn_id) list
+
+type q = { qnum : z; qden : positive }
+
+val inject_Z : z -> q
+
+val qcompare : q -> q -> comparison
+
+val qplus : q -> q -> q
+
+val qmult : q -> q -> q
+
+val qopp : q -> q
+
+val qminus : q -> q -> q
+
+val qinv : q -> q
+
+val qdiv : q -> q -> q
+
+val qred : q -> q
 
 val tt_eqb : toktype -> toktype -> bool
 
@@ -952,3 +1004,78 @@ val gok : expr -> bool
 val gv : value -> bool
 
 val dsh : expr -> bool
+
+type rval =
+| RNum of q
+| RStr of char list
+
+type row = char list -> rval option
+
+val pow2 : z -> z
+
+val q_of_float_bits : z -> q option
+
+val str_cmp : char list -> char list -> comparison
+
+type cmpop =
+| CEq
+| CLt
+| CLe
+| CGt
+| CGe
+
+val holds_cmp : cmpop -> comparison -> bool
+
+val leaf_const : expr -> rval option
+
+val cmp_vals : cmpop -> rval -> rval -> bool option
+
+val wild_match_fuel : nat -> char list -> char list -> bool
+
+val wild_match : char list -> char list -> bool
+
+val field_of : value -> char list option
+
+val is_star : value -> bool
+
+val opt_and : bool option -> bool option -> bool option
+
+val opt_or : bool option -> bool option -> bool option
+
+val cmp_leaf : row -> cmpop -> char list -> value -> bool option
+
+val in_list : row -> char list -> expr list -> bool option
+
+val qsem : row -> expr -> bool option
+
+val sstr : bytes0 -> char list
+
+val dec_digits : char list -> z -> nat -> ((z * nat) * char list) option
+
+val q_of_decimal : char list -> q option
+
+val similar_meta : char -> bool
+
+val sim_match_fuel : nat -> char list -> char list -> bool
+
+val sim_match : char list -> char list -> bool
+
+val has_meta : char list -> bool
+
+val nat_of_digits : char list -> nat -> nat
+
+val operand : row -> rval list -> ast -> rval option
+
+val cmp_of : char list -> cmpop option
+
+val cmp2 : row -> rval list -> cmpop -> ast -> ast -> bool option
+
+val ssem : row -> rval list -> ast -> bool option
+
+val mid : q -> q -> q
+
+val num_probes : q list -> q list
+
+val q_lt : q -> q -> bool
+
+val q_eq : q -> q -> bool
